@@ -53,6 +53,11 @@ class PQMachine:
         model = {}
         for op in hist:
             self._apply(pq, model, op)
+            # the read-only observers are exercised after every operation of a replayed history as well: what they
+            # returned earlier must not influence what they (or pop) return later
+            for it in self.items:
+                pq.get_score_by_item(it)
+            len(pq), pq.is_empty()
         return [pq, model, list(hist)]
 
     @staticmethod
@@ -253,6 +258,42 @@ class CFMachine:
         return len(set(st[1].values()))
 
 
+class CFObservedMachine(CFMachine):
+    """the same finder, but every element is looked up after every operation (also while a history is replayed):
+    what a lookup returned once must not be remembered across a later merge.  The states reached are the fully
+    path-compressed ones; CFMachine explores the uncompressed forests."""
+
+    def _observe(self, cf, blocks, viols, after):
+        for v in self.values:
+            got = cf.find(v)
+            want = min(blocks[v])
+            if got != want and viols is not None:
+                viols.append(self._v("find-after", f"find({v!r})={got!r} after {after!r} (lookups after every operation), minimum of its component is {want!r}"))
+
+    def replay(self, hist):
+        from whatshap.graph import ComponentFinder
+
+        cf = ComponentFinder(self.values)
+        blocks = {v: frozenset([v]) for v in self.values}
+        self._observe(cf, blocks, None, ())
+        for op in hist:
+            cf.merge(op[1], op[2])
+            self._model_merge(blocks, op[1], op[2])
+            self._observe(cf, blocks, None, op)
+        return [cf, blocks]
+
+    def enabled(self, st):
+        return [("merge", x, y) for x, y in itertools.permutations(self.values, 2)]
+
+    def step(self, st, op):
+        cf, blocks = st
+        viols = []
+        cf.merge(op[1], op[2])
+        self._model_merge(blocks, op[1], op[2])
+        self._observe(cf, blocks, viols, op)
+        return viols
+
+
 def machines(tier):
     ms = [
         PQMachine([0, 1, 2, 3], [0, 1, 2], "pq-scalar-4x3"),
@@ -264,6 +305,8 @@ def machines(tier):
         CFMachine([0, 1, 2, 3, 4], "cf-int-5"),
         CFMachine([7, 3, 9, 1], "cf-unsorted-4"),
         CFMachine(["b", "a", "d", "c"], "cf-str-4"),
+        CFObservedMachine([0, 1, 2, 3, 4], "cf-observed-int-5"),
+        CFObservedMachine([7, 3, 9, 1], "cf-observed-unsorted-4"),
     ]
     if tier == "thorough":
         ms += [
